@@ -19,6 +19,8 @@ mod cssws_unit;
 mod bmc_unit;
 mod groupdet_unit;
 mod grouplink_unit;
+mod posloc_unit;
+mod strfyrt_unit;
 
 pub struct Outcome {
     pub found: bool,
@@ -81,6 +83,10 @@ fn main() {
         ("GROUPDET", "run") => groupdet_unit::run(&input.unwrap()),
         ("GROUPLINK", "search") => grouplink_unit::search(),
         ("GROUPLINK", "run") => grouplink_unit::run(&input.unwrap()),
+        ("POSLOC", "search") => posloc_unit::search(),
+        ("POSLOC", "run") => posloc_unit::run(&input.unwrap()),
+        ("STRFYRT", "search") => strfyrt_unit::search(),
+        ("STRFYRT", "run") => strfyrt_unit::run(&input.unwrap()),
         ("TOTAL", "search") => total_unit::search(),
         ("TOTAL", "run") => total_unit::run(&input.unwrap()),
         _ => {
